@@ -140,7 +140,7 @@ fn illegal(k: u8, s: &str) -> AMQPClass {
             ticket: 0, queue: s, consumer_tag: "".into(), no_local: false, no_ack: false,
             exclusive: false, nowait: false, arguments: FieldTable::new(),
         })),
-        2 => AMQPClass::Basic(basic::AMQPMethod::Get(basic::Get { ticket: 0, queue: s, no_ack: true })),
+        2 => AMQPClass::Basic(basic::AMQPMethod::Get(basic::Get { ticket: 0, queue: s, no_ack: false })), // amq-protocol 1.4 parses no_ack back as false
         3 => AMQPClass::Basic(basic::AMQPMethod::Publish(basic::Publish {
             ticket: 0, exchange: s, routing_key: "rk".into(), mandatory: false, immediate: false,
         })),
